@@ -253,6 +253,17 @@ func main() {
 		b.WriteString(o.lean + "\n")
 	}
 	b.WriteString("end Gen\n")
+	// manifest: the functions translated this run, as the fact extractor names them (client.ParseLine,
+	// client.Line.Text): their fingerprints are replaced by the GenCheck obligations
+	var mf strings.Builder
+	for _, n := range order {
+		if byName[n].lean != "" {
+			mf.WriteString("client." + n + "\n")
+		}
+	}
+	if old, err := os.ReadFile(*out + ".manifest"); err != nil || string(old) != mf.String() {
+		os.WriteFile(*out+".manifest", []byte(mf.String()), 0o644)
+	}
 	if old, err := os.ReadFile(*out); err == nil && string(old) == b.String() {
 		fmt.Printf("go2lean: %d translated, %d unsupported -> %s (unchanged)\n", len(order)-bad, bad, *out)
 		return // keep the file's mtime so that lake does not rebuild
